@@ -48,7 +48,7 @@ func (u *Universe) newExec(pkg *packages.Package, name string, r *Repr) *Exec {
 	na, ns := 0, 0
 	return &Exec{U: u, Pkg: pkg, R: r, Name: name, nextAlloc: &na, nextSym: &ns, occ: map[string]int{},
 		globals: map[types.Object]Value{}, globalMem: map[int]Value{}, trusted: map[string]bool{}, inlined: map[string]bool{},
-		defs: map[string]string{}, opaque: map[string]bool{}}
+		defs: map[string]string{}, opaque: map[string]bool{}, usedLemmas: map[string]bool{}}
 }
 
 func (u *Universe) verifyContract(c *Contract) (res *FuncResult) {
@@ -93,7 +93,7 @@ func (u *Universe) verifyContract(c *Contract) (res *FuncResult) {
 		unsupported("contract %s: header has %d results, function has %d", c.Where, len(c.Results), sig.Results().Len())
 	}
 	bindParam := func(id *ast.Ident, t types.Type, cname string, recv bool) {
-		v := x.havoc(e, t, cname)
+		v := x.havocNamed(e, t, cname, hasName(c.BVNames, cname))
 		if pv, ok := v.(PtrV); ok && recv {
 			pv.Nil = FalseT
 			v = pv
@@ -150,6 +150,7 @@ func (u *Universe) verifyContract(c *Contract) (res *FuncResult) {
 		pre.where = r.Line
 		st.assume(pre.boolTerm(pre.expr(r.Expr)))
 	}
+	x.propagateConsts(st)
 	x.entry = st.fork()
 	// vacuity guard: the precondition is satisfiable
 	x.Obls = append(x.Obls, &Obl{Name: "cover." + name + ".pre", Kind: "cover", PC: x.withGlobals(st.pc), Goal: FalseT, Cover: true, Func: name, Where: c.Where})
@@ -263,6 +264,13 @@ func (x *Exec) checkReturn(st *State) {
 	ce := x.entryEnv(st)
 	for i, nm := range c.Results {
 		ce.names[nm] = st.res[fmt.Sprintf("#%d", i)]
+	}
+	if len(c.Uses) > 0 {
+		ue := x.localEnv(st)
+		for i, nm := range c.Results {
+			ue.names[nm] = st.res[fmt.Sprintf("#%d", i)]
+		}
+		x.applyUses(ue, c.Uses, "ret")
 	}
 	for i, en := range c.Ensures {
 		ce.where = en.Line
@@ -456,6 +464,31 @@ func (u *Universe) verifyLemma(l *Lemma) (res *FuncResult) {
 		e.where = r.Line
 		st.assume(e.boolTerm(e.expr(r.Expr)))
 	}
+	if len(l.Uses) > 0 {
+		x.C = &Contract{ReprBV: l.ReprBV}
+		x.applyUses(e, l.Uses, "")
+		x.C = nil
+	}
+	if l.Induct != "" {
+		// induction on a natural-number parameter: the statement may be assumed at n-1
+		nv, ok := e.names[l.Induct].(Scalar)
+		if !ok {
+			unsupported("%s: induct %s: no such integer parameter", l.Where, l.Induct)
+		}
+		x.addObl("lemma", "induct.nonneg", st, Le(IntC(0), e.toIntTerm(nv)), l.Where)
+		ih := e.sub(map[string]Value{l.Induct: Scalar{Sub(e.toIntTerm(nv), IntC(1)), nv.Typ}})
+		var hyp, concl []*Term
+		hyp = append(hyp, Le(IntC(1), e.toIntTerm(nv)))
+		for _, r := range l.Requires {
+			ih.where = r.Line
+			hyp = append(hyp, ih.boolTerm(ih.expr(r.Expr)))
+		}
+		for _, en := range l.Ensures {
+			ih.where = en.Line
+			concl = append(concl, ih.boolTerm(ih.expr(en.Expr)))
+		}
+		st.assume(Implies(And(hyp...), And(concl...)))
+	}
 	x.Obls = append(x.Obls, &Obl{Name: "cover." + name + ".pre", Kind: "cover", PC: append([]*Term{}, st.pc...), Goal: FalseT, Cover: true, Func: name, Where: l.Where})
 	for i, en := range l.Ensures {
 		e.where = en.Line
@@ -465,4 +498,49 @@ func (u *Universe) verifyLemma(l *Lemma) (res *FuncResult) {
 	res.Obls = x.finishObls()
 	res.Trivial = x.trivial
 	return res
+}
+
+// propagateConsts: equalities `symbol = constant` among the assumptions (e.g. a required length)
+// are substituted into the state so that constant-trip loops can be unrolled.
+func (x *Exec) propagateConsts(st *State) {
+	m := map[string]*Term{}
+	for _, p := range st.pc {
+		if p.Op == "=" && len(p.Args) == 2 {
+			a, b := p.Args[0], p.Args[1]
+			if a.Op == "var" && b.Op == "const" {
+				m[a.Name] = b
+			} else if b.Op == "var" && a.Op == "const" {
+				m[b.Name] = a
+			}
+		}
+	}
+	if len(m) == 0 {
+		return
+	}
+	for k, v := range st.vars {
+		st.vars[k] = substValue(v, m)
+	}
+	for k, v := range st.mem {
+		st.mem[k] = substValue(v, m)
+	}
+}
+
+func substValue(v Value, m map[string]*Term) Value {
+	switch c := v.(type) {
+	case Scalar:
+		return Scalar{subst(c.T, m), c.Typ}
+	case SliceV:
+		c.Off, c.Len, c.Cap, c.Nil = subst(c.Off, m), subst(c.Len, m), subst(c.Cap, m), subst(c.Nil, m)
+		return c
+	case ArrayV:
+		c.T = subst(c.T, m)
+		return c
+	case StructV:
+		f := map[string]Value{}
+		for k, w := range c.F {
+			f[k] = substValue(w, m)
+		}
+		return StructV{f, c.Typ}
+	}
+	return v
 }
